@@ -167,6 +167,10 @@ func c11(r *core.Run) {
 		ex, un, as := r.Explain, r.Undecided, r.Assume
 		r.Filter = func(o *core.Obligation) bool { return o.Rule == "C07.ONEBATCH" }
 		r.Under("C07.ONEBATCH", "C11.ATOMIC", func() { c07(r) })
+		// ... and the index entries a mutation leaves behind belong to the version it stored (the stale-entry
+		// discipline of C06): an old version's entry that survives pairs with the new version's record
+		r.Filter = func(o *core.Obligation) bool { return o.Rule == "C06.IDX" }
+		r.Under("C06.IDX", "C11.IDX", func() { c06(r) })
 		r.Filter = nil
 		r.Explain, r.Undecided, r.Assume = ex+" (ATOMIC) every mutation of the embedded store is applied as one batch with a single commit (rule shared with C07): a snapshot taken by a concurrent scan contains all of it or none of it.", un, as
 	}()
